@@ -21,6 +21,10 @@
 //! gsyn::parse(src)          -> Result<Program, String>            // lex + parse with the real front end
 //! ```
 //!
+//! Size/depth stress classes (same value type, same rendering/tags/shrinking): `gsyn::stress::deep(&cfg)` (6..=16 nested
+//! blocks incl. match arms and methods), `gsyn::stress::long(&cfg)` (one construct far beyond any line length),
+//! `gsyn::stress::many(&cfg)` (50..=70 declarations). `gsyn::max_indent_columns(src)` measures the deepest indentation.
+//!
 //! * `GenProgram::tags` = AST-observable tags (node kinds + optional-field states, computed by parsing the rendered
 //!   text with the real parser and scanning the AST, so they are truthful) + `surface.*` tags for spellings the AST
 //!   does not record (computed by the renderer).
@@ -37,6 +41,7 @@
 pub mod asttags;
 pub mod render;
 pub mod strat;
+pub mod stress;
 pub mod tree;
 
 use proptest::prelude::*;
@@ -167,4 +172,9 @@ pub fn program_tree(cfg: &GsynConfig) -> BoxedStrategy<GProgram> {
 /// Strategy over rendered programs (shrinks on the tree).
 pub fn program(cfg: &GsynConfig) -> BoxedStrategy<GenProgram> {
     strat::program(cfg).prop_map(|t| render(&t)).boxed()
+}
+
+/// Deepest indentation (in columns) of any non-blank line: a cheap measure of block nesting for evidence tables.
+pub fn max_indent_columns(src: &str) -> usize {
+    src.lines().filter(|l| !l.trim().is_empty()).map(|l| l.len() - l.trim_start().len()).max().unwrap_or(0)
 }
